@@ -126,6 +126,9 @@ type vcase struct {
 
 var bounded = literal.NewBoundedBuilder(1 << 20)
 
+// stall reports calls that do not return (set in main)
+var stall *common.StallWatch
+
 // parseVia parses text with the named parser; returns the parsed value's
 // offset-aware structural key, its printed form, and nil-ness.
 func parseVia(via, text string) (key, reprint string, isNil bool, err error) {
@@ -384,7 +387,12 @@ func runSpecs(r *common.Run, name string, n int, gen func(i int) []*vals.Spec, v
 			}
 			for _, via := range vias {
 				local++
-				if ok, c, sh, d := checkValue(s, via); !ok {
+				var ok bool
+				var c, sh, d string
+				stall.Do(func() common.Failure {
+					return common.Failure{Check: "value", Class: "in-domain:" + kindOf(s), Case: vcase{s, via}, Detail: s.Short() + ": printing or parsing through " + via + " has not returned after a minute"}
+				}, func() { ok, c, sh, d = checkValue(s, via) })
+				if !ok {
 					r.Fail(common.Failure{Check: "value", Class: c, Shape: sh, Case: vcase{s, via}, Detail: d})
 				}
 			}
@@ -795,7 +803,11 @@ func levelGraphs(r *common.Run) {
 		if r.OutOfTime() {
 			return
 		}
-		ok, c, sh, d := checkGraph(graphs[i])
+		var ok bool
+		var c, sh, d string
+		stall.Do(func() common.Failure {
+			return common.Failure{Check: "graph", Class: "in-domain:graph", Case: gcase{graphs[i]}, Detail: "WriteGraph / ReadIntoGraph has not returned after a minute"}
+		}, func() { ok, c, sh, d = checkGraph(graphs[i]) })
 		if !ok {
 			r.Fail(common.Failure{Check: "graph", Class: c, Shape: sh, Case: gcase{graphs[i]}, Detail: d})
 		}
@@ -848,6 +860,7 @@ func main() {
 		return ok, sh + ": " + d
 	})
 	r.MaybeReplay()
+	stall = common.NewStallWatch(r, time.Minute)
 	r.Assume("domain = docs/temporal_graph_modeling.md: node types are '/'-separated paths without whitespace, '<' or '>'; node ids are non-empty UTF-8 without space/tab/LF/CR and without '<' '>'; predicate ids are non-empty UTF-8 without space/tab/LF/CR (quotes, brackets, backslashes, '<' '>' and non-ASCII allowed); anchors are those RFC3339Nano can express (whole-minute offsets, local year 0001-9999); text and blob literals are arbitrary (docs: 'elements of arbitrary length'); NaN excluded (not equal to itself)")
 	r.Assume("equality is structural via exported accessors: (type,id); (id, kind, instant AND zone offset); (literal type, value; float64 by IEEE bits so -0 differs from +0); object kind + boxed value")
 	r.Assume("each triple carries at most one value from the listed defect classes (a predicate id containing \"@[ or a text literal containing \"^^type:), so that one failure is attributable to one cause; triples combining two of them are not explored")
